@@ -98,6 +98,11 @@ func buildOverlay(rel string, native bool) (map[string][]byte, []string) {
 	p := filepath.Join(repoDir, rel, "zz_vf_intrinsics.go")
 	ov[p] = []byte(strings.ReplaceAll(string(tmpl), "PKGNAME", pkgName))
 	files = append(files, p)
+	if rl, err := os.ReadFile(filepath.Join(verifDir, "harness", "_tmpl", "rlimit.go.tmpl")); err == nil {
+		p := filepath.Join(repoDir, rel, "zz_vf_rlimit.go")
+		ov[p] = []byte(strings.ReplaceAll(string(rl), "PKGNAME", pkgName))
+		files = append(files, p)
+	}
 	if _, err := os.Stat(filepath.Join(dir, ".netutil")); err == nil {
 		nt, err := os.ReadFile(filepath.Join(verifDir, "harness", "_tmpl", "netutil.go.tmpl"))
 		if err != nil {
@@ -176,6 +181,9 @@ type ExecResult struct {
 	Winners      map[string]int               `json:"solver_winners,omitempty"`
 	ModelHits    int                          `json:"model_cache_hits"`
 	UnsatHits    int                          `json:"unsat_subset_hits"`
+	Tier1Hits    int                          `json:"scalar_tier_hits"`
+	Merged       int                          `json:"branches_merged"`
+	Resolved     int                          `json:"layer_conditions_resolved"`
 }
 
 type DiffResult struct {
@@ -302,7 +310,7 @@ func cmdExec(args []string) {
 		res := &ExecResult{Harness: name, Case: ex.caseVals, Paths: ex.Paths, PathsEnded: ex.PathsEnded, Branches: ex.Branches,
 			Obligations: ex.Obligations, Discharged: ex.Discharged, Trivial: ex.Trivial, Queries: solver.Queries, CacheHits: solver.CacheHits,
 			SolverSec: solver.Seconds, LoadSec: loadSec, Inconclusive: ex.Inconclusive, Reached: ex.Reached, ReachSamples: ex.ReachSample,
-			Stubs: ex.StubsUsed, Winners: solver.Winners, ModelHits: solver.ModelHits, UnsatHits: solver.CoreHits, SolverErrors: solver.Errors, Unwind: uw, Observed: ex.Observed}
+			Stubs: ex.StubsUsed, Winners: solver.Winners, ModelHits: solver.ModelHits, UnsatHits: solver.CoreHits, Tier1Hits: solver.Tier1Hits, Merged: ex.Merged, Resolved: ex.Resolved, SolverErrors: solver.Errors, Unwind: uw, Observed: ex.Observed}
 		for f := range ex.FuncsEntered {
 			res.Funcs = append(res.Funcs, f)
 		}
